@@ -1,4 +1,4 @@
-* as coded (StaleFill): TLC must report ReadYourWrites violated (finding #4)
+\* as coded (StaleFill): TLC must report ReadYourWrites violated (finding #4)
 SPECIFICATION Spec
 CONSTANTS
   Keys = {k1, k2}
